@@ -13,9 +13,9 @@ def judge(chk, trace, mm):
         if m[2] == "fileload":
             for issue in sorted(d["issues"]):
                 chk.classify(issue, f"{d['enc']} file for {d['m_file']}K into {d['target']} {d['m_emu']}K emulator: {sorted(d['issues'])} "
-                             f"cpu {sorted(d['cpudiff'])} {d['detail']}", [line_of(trace, m[1])], extra=m)
+                             f"cpu {sorted(d['cpudiff'])} {d['detail']}", lambda m=m, trace=trace: [line_of(trace, m[1])], extra=m)
         elif m[2] == "scrload":
-            chk.classify(f"scr:{d['outcome']}", f"SCR load: {d}", [line_of(trace, m[1])], extra=m)
+            chk.classify(f"scr:{d['outcome']}", f"SCR load: {d}", lambda m=m, trace=trace: [line_of(trace, m[1])], extra=m)
 
 
 def run(tier, seed):
